@@ -255,6 +255,11 @@ pub fn run(ctx: &Ctx) -> i32 {
     stats.merge(s2);
     viol.extend(v2);
 
+    crate::fuzzrun::golden("frames_rx", &mut stats, &mut viol);
+    if ctx.tier == vcommon::ev::Tier::Thorough {
+        let seeds: Vec<Vec<u8>> = shorts.iter().map(|(_, f)| { let mut v = vec![1u8, 64, 128, 192, 255, 1, 4, 2]; v.extend(stream_of(f)); v }).collect();
+        crate::fuzzrun::campaign(ctx, "frames_rx", crate::fuzzrun::fuzz_secs(240), &seeds, &mut stats, &mut viol);
+    }
     Report::new(RULE)
         .assume("the reference decode of a frame is serde_json::from_slice applied to exactly that frame's bytes (for replies: combined by the rules of C04)")
         .assume("the transport never returns more bytes than the buffer it was offered and signals peer close by a 0-byte read")
@@ -263,6 +268,9 @@ pub fn run(ctx: &Ctx) -> i32 {
 }
 
 pub fn replay(_lane: &str, case: serde_json::Value) -> CaseResult {
+    if _lane == "fuzz" {
+        return crate::fuzzrun::replay(&case);
+    }
     let case: RxCase = serde_json::from_value(case).map_err(|e| Fail::new("bad-replay", e.to_string()))?;
     let run = case.run();
     println!("stream: {}", truncate(&show_bytes(&case.stream()), 600));
